@@ -31,7 +31,9 @@ class RoundTrip(Oracle):
             "p_between": 0.3,
             "mask": rng.choice(["any", "any", "first2", "all"]),
             "bundle_defaults": rng.random() < 0.7,
-            "steer_f11b": rng.random() < 0.85,
+            "steer_f11b": rng.random() < 0.5,
+            "p_foreign_type": rng.choice([0.0, 0.5]),
+            "odd_locals": rng.random() < 0.3,
         }
 
     def swarm(self, rng):
@@ -100,28 +102,18 @@ class RoundTrip(Oracle):
             raise Violation(self.prop, "round-trip", cause, detail, self.facts(d, d2))
 
     def facts(self, d, d2):
-        """Facts for known-finding attribution: bundles whose printed identifier does not
-        denote its URI in the document's own scope (F11b)."""
-        from .c03 import table, default_uri
-        bad = []
+        """Facts for known-finding attribution (F11b): two bundles of the source document
+        whose identifiers are *printed* identically although they are different URIs (the
+        PROV-JSON writer keys the document-level "bundle" map by the printed identifier)."""
+        dup = []
         try:
-            dt = table(d)
-            dt.update(pools.RESERVED)
-            dd = default_uri(d)
             printed = {}
             for b in d.bundles:
-                q = b.identifier
-                p = q.namespace.prefix
-                bound = dt.get(p) if p else dd
-                if bound != q.namespace.uri:
-                    bad.append(str(q))
-                printed.setdefault(str(q), set()).add(q.uri)
-            for k, us in printed.items():
-                if len(us) > 1 and k not in bad:
-                    bad.append(k)
+                printed.setdefault(str(b.identifier), set()).add(b.identifier.uri)
+            dup = sorted(k for k, us in printed.items() if len(us) > 1)
         except Exception:
             pass
-        return {"bundle_id_scope_mismatch": bad}
+        return {"bundle_keys_printed_identically": dup}
 
 
 class C01(RoundTrip):
